@@ -384,17 +384,32 @@ func runC19(t *testing.T, test, level string, nScenarios int) {
 		}
 		results := make([][]*peCase, nScenarios)
 		done := make(chan out, nScenarios)
-		genLong := rapid.Custom(genC19ScenarioN(level, 13))
-		for i := 0; i < nScenarios; i++ {
+		// long conversations (9..14 UEs, several hundred internal steps): a few per run, L-proc only (no fixed sleeps in
+		// registration and establishment), of different sizes so that the fault points fall on different steps
+		nLong := 0
+		if level == "proc" {
+			nLong = 3
+			if ev.Tier() == "thorough" {
+				nLong = 16
+			}
+			if ev.NShards() > 1 {
+				nLong = (nLong + ev.NShards() - 1) / ev.NShards()
+			}
+		}
+		nShort := nScenarios
+		total := nShort + nLong
+		results = make([][]*peCase, total)
+		done = make(chan out, total)
+		for i := 0; i < total; i++ {
 			go func(i int) {
 				base := gen.Example(int(ev.Seed()) + i*15485863)
-				if level == "proc" && i == nScenarios-1 {
-					// one long conversation per run (a dozen UEs): fault points hundreds of steps into the run
-					base = genLong.Example(int(ev.Seed()) + i*15485863 + 5)
+				if i >= nShort {
+					base = rapid.Custom(genC19ScenarioN(level, 9+(i-nShort+int(ev.Seed()))%6)).Example(int(ev.Seed()) + i*15485863 + 5)
 				}
 				done <- out{i, enumerateFaults(t, r, test, base, int(ev.Seed())+i*32452843+17)}
 			}(i)
 		}
+		nScenarios = total
 		for i := 0; i < nScenarios; i++ {
 			o := <-done
 			results[o.i] = o.cs
